@@ -131,3 +131,66 @@ Theorem C04_early_failure_pure :
   a_receiver (call g inplace BEarly n x) = x /\ a_outcome (call g inplace BEarly n x) = Raised.
 Proof. exact early_failure_pure. Qed.
 Print Assumptions C04_early_failure_pure.
+
+(* ---- second pass ---------------------------------------------------------------- *)
+
+(* A path followed by copying modes all the way leads, in the copy, to a newly
+   allocated cell - for every tree, every path length, every mode table. *)
+Theorem C04_owned_path_fresh :
+  forall p t m n, path_copied m p t = true ->
+  exists a cls ks, lookup p (snd (copy t m n)) = Some (Node a cls ks) /\ n <= a.
+Proof. exact path_fresh. Qed.
+Print Assumptions C04_owned_path_fresh.
+
+(* The shape the property demands of EVERY operation with an in-place switch:
+   op(inplace=False) s = (s, result).  Any operation whose body reaches the
+   cells it writes along owned paths of the object it was handed (any number
+   of writes / deletions, any values) leaves the receiver as it was and
+   returns what the in-place form makes of a copy. *)
+Theorem C04_op_not_inplace_pure :
+  forall ws n x, below n x -> paths_owned x ws ->
+  fst (op_not_inplace ws n x) = x /\
+  snd (op_not_inplace ws n x) = op_inplace ws (snd (copy x MCopy n)).
+Proof. exact op_not_inplace_pure. Qed.
+Print Assumptions C04_op_not_inplace_pure.
+
+(* ... for the whole table of write sets of the methods that offer `inplace`
+   (Data, PropertiesData, PropertiesDataBounds, Field). *)
+Theorem C04_not_inplace_table :
+  forall name l v n x,
+  In (name, l) inplace_table -> below n x -> paths_owned x (pws_of l v) ->
+  fst (op_not_inplace (pws_of l v) n x) = x /\
+  snd (op_not_inplace (pws_of l v) n x) = op_inplace (pws_of l v) (snd (copy x MCopy n)).
+Proof. exact table_not_inplace_pure. Qed.
+Print Assumptions C04_not_inplace_table.
+
+(* Non-vacuity: the Field row on a concrete field, with an effective result. *)
+Theorem C04_not_inplace_table_example :
+  exists name l, In (name, l) inplace_table /\ below 16 field_example /\
+    paths_owned field_example (pws_of l (Some (Imm "new"))) /\
+    erase (snd (op_not_inplace (pws_of l (Some (Imm "new"))) 16 field_example)) <> erase field_example.
+Proof. exact table_example. Qed.
+Print Assumptions C04_not_inplace_table_example.
+
+(* Field.set_data(data, axes=..., inplace=False): data axes and data are set
+   on the copy; the receiver - its data axes included - is unchanged. *)
+Theorem C04_field_set_data_not_inplace :
+  forall x data axes n, below n x ->
+  path_copied MCopy [C; "'constructs'"] x = true -> path_copied MCopy [C] x = true ->
+  fst (field_set_data false x data axes n) = x.
+Proof. exact field_set_data_pure. Qed.
+Print Assumptions C04_field_set_data_not_inplace.
+
+(* The filter history of a Constructs collection is owned by its copy at every
+   depth: stepping into _prefiltered (resp. _constructs) preserves ownership,
+   so C04_owned_path_fresh applies to constructs reached through
+   unfilter() / inverse_filter() of the copy, however long the history. *)
+Theorem C04_filter_history_owned :
+  (forall a kids pf p, assoc "_prefiltered" kids = Some pf ->
+     path_copied MCopy ("_prefiltered" :: p) (Node a "Constructs" kids) = path_copied MCopy p pf) /\
+  (forall a kids tdict p, assoc "_constructs" kids = Some tdict ->
+     path_copied MCopy ("_constructs" :: p) (Node a "Constructs" kids)
+     = path_copied (MEach (MEach MCopy)) p tdict) /\
+  below 9 filtered_example /\ path_copied MCopy history_path filtered_example = true.
+Proof. exact (conj prefiltered_step (conj construct_step history_example)). Qed.
+Print Assumptions C04_filter_history_owned.
